@@ -112,6 +112,19 @@ class C03(F.Spec):
                               "rspos 1 5000 0", "rstimes 2 5000 5000 0 0", "rspos 2 5000 0",
                               "msg 460 " + calcfg(3, alias, 8000, 1, dtype, data).hex(), "adv 300"],
                              {"board": "rs3", "tags": ["board:rs3", "calcfg-alias"]})
+        # per-channel bits of shared settings (motor / buttons upside down): a configuration naming one shutter must not touch
+        # another shutter's bit - every ordered pair of shutters, switching the bit on for the first, then on / off for the second
+        for a in range(3):
+            for b in range(3):
+                if a == b:
+                    continue
+                for second in (2, 1):
+                    ops = ["board rs3 0", "init", "calllog 1"]
+                    for k in range(3):
+                        ops += ["rstimes %d 5000 5000 0 0" % k, "rspos %d 5000 0" % k]
+                    ops += ["msg 690 " + chan_config(a, 110, 0, rs_cfg(5000, 5000, 2, 2, -1, 0)).hex(), "adv 100",
+                            "msg 690 " + chan_config(b, 110, 0, rs_cfg(5000, 5000, second, second, -1, 0)).hex(), "adv 100"]
+                    yield F.Case("updown-bits-%d-%d-%d" % (a, b, second), ops, {"board": "rs3", "tags": ["board:rs3", "updown-bits"]})
         for i in range(n):
             yield self.gen(rng, i)
 
@@ -170,7 +183,8 @@ class C03(F.Spec):
                 if which == "set":
                     cid, pl = 110, set_value(rng.choice([0, 1, -1, 77]), ch, dur, val)
                 elif which == "group":
-                    cid, pl = 115, group_value(5, 9, rng.choice([0, 1]), ch, dur, val)
+                    # (group ids that are also channel numbers of the board: the group id is not the channel)
+                    cid, pl = 115, group_value(5, rng.choice([0, 1, 2, 3, 9, 256, 257]), rng.choice([0, 1]), ch, dur, val)
                 elif which in ("cfg_rs", "cfg_fb", "cfg_relay", "cfg_at", "cfg_rand"):
                     cid = rng.choice([690, 682])
                     t = lambda: rng.choice([0, 1, 500, 600000, -1, 2 ** 31 - 1, -2 ** 31])
